@@ -532,6 +532,29 @@ def run_wrapper_errors(seed):
     expect(ValueError, "bad_direction", "an unknown gradient_direction raises ValueError", vol, 0.0, gradient_direction="sideways")
     expect(ValueError, "bad_ndim", "a 2-D volume raises ValueError", vol[0], 0.0)
     expect(ValueError, "bad_spacing", "a spacing that is not three numbers raises ValueError", vol, 0.0, spacing=(1.0, 1.0))
+    # the default level (mid-range) on volumes of other dtypes: an interior blob sampled as uint8 / int16 / float32 / bool-like 0-1 integers gives the same closed mesh
+    g = np.linspace(-1.0, 1.0, 9)
+    X, Y, Z = np.meshgrid(g, g, g, indexing="ij")
+    blob = np.exp(-3.0 * (X * X + 1.4 * Y * Y + 0.8 * Z * Z))
+    ref = None
+    for dt, scale, offset in (("float64", 200.0, 0.0), ("float32", 200.0, 50.0), ("uint8", 200.0, 0.0), ("uint8", 150.0, 100.0), ("int8", 100.0, 20.0), ("int16", 20000.0, 10000.0),
+                              ("uint16", 30000.0, 30000.0), ("int32", 1000.0, 0.0)):
+        out.evaluations += 1
+        out.cases += 1
+        volume = (np.round(blob * scale) + offset).astype(dt)        # several of these have min + max beyond the dtype's own range
+        inp = {"call": "marching_cubes(volume)  # level=None", "dtype": dt, "volume": "9x9x9 Gaussian blob scaled to the dtype's range", "min": float(volume.min()), "max": float(volume.max())}
+        try:
+            res = marching_cubes(volume)
+            verts, faces = np.asarray(res[0], dtype=float), np.asarray(res[1])
+            ok, d = is_closed_oriented(faces, len(verts))
+            lvl = 0.5 * (float(volume.min()) + float(volume.max()))
+            inside = float(abs(signed_volume(verts, faces)))
+            voxels = float((volume.astype(float) > lvl).sum())
+            if not ok or not (0.3 * voxels <= inside <= 3.0 * voxels + 8):
+                out.fail("default_level_dtype", "with the default level (mid-range of the data) an interior blob gives a closed mesh around the voxels above mid-range, whatever the sample dtype", inp,
+                         {"closed": ok, "enclosed_volume": inside, "voxels_above_mid_range": voxels, **(d if isinstance(d, dict) else {})})
+        except Exception as e:  # noqa
+            out.fail("default_level_dtype", "with the default level (mid-range of the data) an interior blob of any numeric dtype is meshed", inp, f"raised {type(e).__name__}: {e}")
     return out
 
 
@@ -877,7 +900,22 @@ def run_user_level(seed, sep):
         ("Crystal.promolecule_density_isosurfaces(separation=sep)", lambda: c.promolecule_density_isosurfaces(separation=sep)),
         ("Crystal.stockholder_weight_isosurfaces(separation=sep, radius=8.0)", lambda: c.stockholder_weight_isosurfaces(separation=sep, radius=8.0)),
         ("Crystal.hirshfeld_surfaces(separation=sep, radius=8.0, color='d_e')", lambda: c.hirshfeld_surfaces(separation=sep, radius=8.0, color="d_e")),
+        ("Molecule.promolecule_density_isosurface(separation=sep, color='esp')", lambda: [mol.promolecule_density_isosurface(separation=sep, color="esp")]),
+        ("Molecule.promolecule_density_isosurface(separation=sep, color='d_norm_i')", lambda: [mol.promolecule_density_isosurface(separation=sep, color="d_norm_i")]),
     ]
+    try:
+        # the same structure with the cell expanded by 30 % and the molecule kept rigid: no contact shorter than the van der Waals sum (d_norm > 0 everywhere), still enclosed by neighbours
+        from chmpy.crystal import UnitCell, AsymmetricUnit
+        uc = c.unit_cell
+        big = UnitCell.from_lengths_and_angles([x * 1.3 for x in uc.lengths], list(uc.angles))
+        cen = pos.mean(axis=0)
+        asym_cart = c.to_cartesian(c.asymmetric_unit.positions)
+        cen_f = c.to_fractional(cen[None])[0]
+        new_cart = asym_cart - cen + big.to_cartesian(cen_f[None])[0]
+        loose = Crystal(big, c.space_group, AsymmetricUnit(list(c.asymmetric_unit.elements), big.to_fractional(new_cart), labels=np.array(c.asymmetric_unit.labels)))
+        calls.append(("Crystal(cell x 1.3, rigid molecule).hirshfeld_surfaces(separation=sep)  # default d_norm colouring, no close contacts", lambda: loose.hirshfeld_surfaces(separation=sep)))
+    except Exception:  # noqa
+        pass
     # the documented alias `resolution` must act like `separation`
     out.evaluations += 1
     out.cases += 1
@@ -923,6 +961,16 @@ def run_user_level(seed, sep):
             vc = getattr(mesh.visual, "vertex_colors", None)
             if vc is None or len(vc) != len(verts):
                 out.fail("user_level_colours", "one colour per vertex", inp, {"colours": None if vc is None else len(vc), "vertices": len(verts)})
+        if meshes and name.startswith("Molecule.promolecule") and "isovalue=" not in name:
+            # the mesh is in the molecule's Cartesian frame: its vertices sit near the requested density level there
+            try:
+                from chmpy import PromoleculeDensity as _PD
+                rv = np.asarray(_PD((np.array(mol.atomic_numbers), pos)).rho(np.asarray(meshes[0].vertices, dtype=np.float64)), dtype=float)
+                if not (np.median(rv) > 0.002 / 2.5 and np.median(rv) < 0.002 * 2.5 and rv.max() < 0.002 * 30):
+                    out.fail("user_level_on_level", "the vertices of a promolecule surface lie near the requested density level (0.002) of the molecule it was made for", inp,
+                             {"median_density_at_vertices": float(np.median(rv)), "max": float(rv.max()), "min": float(rv.min())})
+            except Exception as e:  # noqa
+                out.fail("user_level_on_level", "density at the mesh vertices can be evaluated", inp, repr(e)[:160])
         if meshes:
             w = winding_numbers(pos, np.asarray(meshes[0].vertices), np.asarray(meshes[0].faces))
             if np.any(np.abs(w - 1) > 0.01):
